@@ -963,6 +963,39 @@ func judgeConflicts(o *Out, op string, c *typCtx, ig ignoreCfg, st *updState, cf
 		}
 		vs.Set().Intersection(changed).Iterate(func(p fieldpath.Path) { want[m+"|"+vx.Path(p)] = true })
 	}
+	// independently of the library's Compare: a path owned by another manager that designates (own
+	// resolver) leaf-like nodes — scalar, null, empty list or map — on both sides, with different
+	// values, has changed, [] against null included
+	if ig.kind == "none" {
+		lu, ru := st.live.AsValue().Unstructured(), forcedResult.AsValue().Unstructured()
+		leafLike := func(x interface{}) bool {
+			switch t := x.(type) {
+			case map[string]interface{}:
+				return len(t) == 0
+			case []interface{}:
+				return len(t) == 0
+			}
+			return true
+		}
+		for m, vs := range st.managers {
+			if m == mgr {
+				continue
+			}
+			m := m
+			vs.Set().Iterate(func(p fieldpath.Path) {
+				a, ok1 := nodeAt(c.sc, cfg.TypeRef(), lu, p)
+				b, ok2 := nodeAt(c.sc, cfg.TypeRef(), ru, p)
+				if ok1 && ok2 && leafLike(a) && leafLike(b) &&
+					vx.CanonValue(value.NewValueInterface(a)) != vx.CanonValue(value.NewValueInterface(b)) {
+					k := m + "|" + vx.Path(p)
+					if !want[k] {
+						want[k] = true
+						o.Tag("upd:conflict-by-resolver-only")
+					}
+				}
+			})
+		}
+	}
 	if uErr != nil {
 		cs, ok := uErr.(merge.Conflicts)
 		if !ok {
